@@ -139,9 +139,18 @@ UOK(ev) == TokOK(UTok(ev)) /\ RIsPow2(Dy(UTok(ev))) /\ UTok(ev)[2] >= 0 /\ UTok(
 (***************************************************************************)
 (* ?gssv  (simple driver): C01, C02, C03, C04, C19 (ledger clause)          *)
 (***************************************************************************)
-LedgerBad(ev) == (IF ev.ledger.live_internal # 0 THEN {"C19.leak"} ELSE {})
-                 \cup (IF ev.ledger.bad_frees # 0 THEN {"C19.bad_free"} ELSE {})
-                 \cup (IF ev.ledger.redzone # 0 \/ ev.ledger.sweep # 0 THEN {"C19.redzone"} ELSE {})
+\* allocation ledger after a call: nothing of the library's own is still allocated (blocks handed to the caller are
+\* marked by the harness), every free hit a live block, guard bytes of all blocks intact.  `cls` names the outcome.
+LedgerCls(ev, cls) == (IF ev.ledger.live_internal # 0 THEN {"C19.leak" \o cls} ELSE {})
+                      \cup (IF ev.ledger.bad_frees # 0 THEN {"C19.bad_free" \o cls} ELSE {})
+                      \cup (IF ev.ledger.redzone # 0 \/ ev.ledger.sweep # 0 THEN {"C19.redzone"} ELSE {})
+LedgerBad(ev) == LedgerCls(ev, "")
+OutcomeCls(ev) == IF ~Has(ev, "info") THEN ""
+                  ELSE IF Has(ev, "work") /\ ev.work.lwork = -1 THEN "_on_query"
+                  ELSE IF ev.info < 0 THEN "_on_rejected"
+                  ELSE IF ev.info = 0 \/ ev.info = ev.n + 1 THEN ""
+                  ELSE IF ev.info <= ev.n THEN (IF ev.fn = "gsisx" THEN "" ELSE "_on_singular")
+                  ELSE "_on_outofspace"
 
 GssvVerdict(ev) ==
   LET n == ev.n  cplx == IsCplx(ev.ty)
@@ -160,7 +169,7 @@ GssvVerdict(ev) ==
         \cup (IF \E k \in 1..Len(ev.A1v) : ev.A1v[k] # ev.A0[k][3] THEN {"C01.A_modified"} ELSE {})
         \cup (IF ev.Astruct_same # 1 THEN {"C01.A_structure_modified"} ELSE {})
         \cup (IF ev.info < 0 THEN {"C18.unexpected_negative_info"} ELSE {})
-        \cup LedgerBad(ev)
+        \cup LedgerCls(ev, OutcomeCls(ev))
   IN [bad |-> bad, arb |-> fv.arb \cup sv.arb, cov |-> fv.cov \cup sv.cov]
 
 (***************************************************************************)
@@ -174,7 +183,7 @@ GstrfVerdict(ev) ==
       fv == FactorVerdict(ev, F, PatternOf(ev.A0, FALSE), m, n, Dy(UTok(ev)), UOK(ev), ev.opts.Fact = 2, FALSE)
       bad == fv.bad
         \cup (IF \E k \in 1..Len(ev.A1v) : ev.A1v[k] # ev.A0[k][3] THEN {"C02.A_modified"} ELSE {})
-        \cup LedgerBad(ev)
+        \cup LedgerCls(ev, OutcomeCls(ev))
   IN [bad |-> bad, arb |-> fv.arb, cov |-> fv.cov]
 
 (***************************************************************************)
@@ -325,7 +334,7 @@ GssvxVerdict(ev, sc) ==
         \cup (IF factored /\ info = 0 /\ sc.memev /\ ev.expansions # sc.nexp THEN {"C07.expansions_count"} ELSE {})
         \cup (IF factored /\ info = 0 /\ Has(ev, "L") /\ Has(ev.L, "rowind") /\ ev.itsz = 4 /\ ~MemUsageOK(ev) THEN {"C07.mem_usage"} ELSE {})
         \cup (IF info < 0 THEN {"C18.unexpected_negative_info"} ELSE {})
-        \cup (IF ~query /\ info >= 0 /\ info <= n + 1 THEN LedgerBad(ev) ELSE {})
+        \cup LedgerCls(ev, OutcomeCls(ev))
       cov == fv.cov \cup sv.cov
         \cup (IF EquedOK(q) /\ needRC /\ ascaledChecked THEN {"C05.A_scaling_exact"} ELSE {})
         \cup (IF solved /\ bneeds /\ bok /\ rcok THEN {"C05.B_scaling_exact"} ELSE {})
@@ -362,17 +371,20 @@ Verdict(ev, pm, sc) ==
         [] ev.fn = "gstrf" -> GstrfVerdict(ev)
         [] ev.fn \in {"gssvx", "gsisx"} -> GssvxVerdict(ev, sc)
         [] ev.fn = "screen" -> ScreenVerdict(ev)
-        [] OTHER -> [bad |-> {}, arb |-> {}, cov |-> {"unjudged"}])
+        [] OTHER -> [bad |-> (IF Has(ev, "ledger") THEN LedgerCls(ev, "_" \o ev.fn) ELSE {}), arb |-> {}, cov |-> {"ledger_only_" \o ev.fn}])
   ELSE IF ev.e = "Done" THEN
      [bad |-> (IF ev.status # "ok" THEN {"C19.abnormal_end_" \o ev.status} ELSE {}), arb |-> {}, cov |-> {}]
   ELSE IF ev.e = "Ledger" THEN
-     [bad |-> (IF ev.ledger.live # 0 THEN {"C19.leak_at_end"} ELSE {}) \cup LedgerBad(ev), arb |-> {}, cov |-> {"C19.ledger_end"}]
+     \* after the caller destroyed what it was handed nothing is left (reported once: not again if a call of this
+     \* scenario was already found to leak)
+     [bad |-> (IF ev.ledger.live # 0 /\ ~sc.leaked THEN {"C19.leak_at_end"} ELSE {}) \cup (IF ev.ledger.bad_frees # 0 THEN {"C19.bad_free"} ELSE {})
+              \cup (IF ev.ledger.redzone # 0 \/ ev.ledger.sweep # 0 THEN {"C19.redzone"} ELSE {}), arb |-> {}, cov |-> {"C19.ledger_end"}]
   ELSE IF IsMemEvent(ev) THEN MemVerdict(pm, ev, sc.ty, sc.liw)
   ELSE [bad |-> {}, arb |-> {}, cov |-> {}]
 
 VARIABLES l, pm, sc
 vars == <<l, pm, sc>>
-NoCtx == [ref |-> <<>>, refd2 |-> FALSE, memfail |-> FALSE, ty |-> "d", liw |-> 4, id |-> "", nexp |-> 0, memev |-> FALSE]
+NoCtx == [ref |-> <<>>, refd2 |-> FALSE, leaked |-> FALSE, memfail |-> FALSE, ty |-> "d", liw |-> 4, id |-> "", nexp |-> 0, memev |-> FALSE]
 TInit == l = 1 /\ pm = <<>> /\ sc = NoCtx
 TNext == /\ l <= Len(Tr)
          /\ LET ev == Tr[l]  v == Verdict(ev, pm, sc) IN
@@ -385,7 +397,7 @@ TNext == /\ l <= Len(Tr)
                           [sc EXCEPT !.memfail = sc.memfail \/ MemFailure(ev), !.memev = TRUE,
                                      !.nexp = IF ev.e = "Expand" /\ ev.ok = 1 /\ pm # <<>> /\ pm.e = "ExpandBegin" /\ pm.numexp > 0 THEN sc.nexp + 1 ELSE sc.nexp]
                      ELSE IF ev.e = "Ret" THEN
-                          [sc EXCEPT !.memfail = FALSE, !.liw = (IF Has(ev, "itsz") THEN ev.itsz ELSE sc.liw), !.nexp = 0, !.memev = FALSE,
+                          [sc EXCEPT !.leaked = sc.leaked \/ (Has(ev, "ledger") /\ ev.ledger.live_internal # 0), !.memfail = FALSE, !.liw = (IF Has(ev, "itsz") THEN ev.itsz ELSE sc.liw), !.nexp = 0, !.memev = FALSE,
                                      !.ref = IF sc.ref = <<>> /\ Has(v, "digs") THEN v.digs ELSE sc.ref,
                                      !.refd2 = IF sc.ref = <<>> /\ Has(v, "digs") THEN v.d2 ELSE sc.refd2]
                      ELSE sc
